@@ -1,7 +1,9 @@
 """Shared machinery of the /verif checks: builds, the harness, TLC, verdicts, evidence."""
-import json, os, re, shutil, subprocess, sys, tempfile, time, hashlib, random
+import json, os, re, shutil, subprocess, sys, tempfile, time, hashlib, random, zlib
 
 VERIF = os.path.dirname(os.path.dirname(os.path.abspath(__file__)))
+# evidence of runs against a scratch copy of the repository (tools/seedtest.sh) goes elsewhere: /verif/evidence describes /repo
+EVIDENCE_DIR = os.environ.get("VERIF_EVIDENCE_DIR") or os.path.join(VERIF, "evidence")
 REPO = os.environ.get("VERIF_REPO", "/repo")
 SPEC = os.path.join(VERIF, "spec")
 SCRATCH_ROOT = os.environ.get("VERIF_SCRATCH", "/var/tmp")
@@ -80,13 +82,24 @@ class Ctx:
         return path
 
     # ---------------------------------------------------------------- harness
-    def run_xcv(self, cmds, flavour="hooks", timeout=900, env=None):
+    def run_xcv(self, cmds, flavour="hooks", timeout=900, env=None, vary_errno=True):
         """Run a command script through the harness.  A crash (Fault event) ends that process;
         the remaining commands are run in a fresh process after a Reset, so the whole script is
         always executed.  Returns the list of events (dicts)."""
         if isinstance(cmds, list):
             cmds = "\n".join(cmds) + "\n"
         lines = [x for x in cmds.split("\n") if x]
+        if vary_errno:
+            # errno on entry is part of the call history (C07) and must be overwritten by every failure (C05):
+            # each sub-trace runs under its own entry-errno regime, reproducibly chosen from the script itself
+            er = random.Random(zlib.crc32(cmds.encode()) ^ (self.seed & 0xffffffff))
+            regimes = ["0", "0", "keep", "keep", "34", "22", "12", "2", "4", "11", "9999"]
+            out_lines = ["errno " + er.choice(regimes)]
+            for x in lines:
+                out_lines.append(x)
+                if x == "reset":
+                    out_lines.append("errno " + er.choice(regimes))
+            lines = out_lines
         events = []
         rounds = 0
         b = self.build(flavour)
@@ -129,6 +142,7 @@ class Ctx:
                 break
             n = fault["line"]
             setup = [x for x in lines[:n] if x.startswith(("obj ", "scan ", "stack ", "entropy "))]
+            setup += [x for x in lines[:n] if x.startswith("errno ")][-1:]
             rest = lines[n:]
             lines = (setup + ["reset"] + rest) if rest else []
         return events
@@ -283,8 +297,8 @@ def write_evidence(ctx, level, coverage, assumptions, violations):
         "wall_s": round(time.time() - ctx.t0, 1),
         "violations": violations,
     }
-    os.makedirs(os.path.join(VERIF, "evidence"), exist_ok=True)
-    with open(os.path.join(VERIF, "evidence", ctx.prop + ".json"), "w") as f:
+    os.makedirs(EVIDENCE_DIR, exist_ok=True)
+    with open(os.path.join(EVIDENCE_DIR, ctx.prop + ".json"), "w") as f:
         json.dump(ev, f, indent=1, default=str)
 
 
@@ -296,7 +310,7 @@ def load_known():
 
 
 def save_replay(prop, payload):
-    d = os.path.join(VERIF, "evidence", "replays")
+    d = os.path.join(EVIDENCE_DIR, "replays")
     os.makedirs(d, exist_ok=True)
     s = json.dumps(payload, sort_keys=True, default=str)
     name = "%s-%s.json" % (prop, hashlib.sha1(s.encode()).hexdigest()[:12])
